@@ -17,11 +17,11 @@ ID = "C14"
 PROPS = ["props/C14.v"]
 EXTRACTS = ["C14"]
 THEOREMS = [
-    "C14_wheel_roundtrip", "C14_wheel_file_roundtrip", "C14_sdist_roundtrip_partial", "C14_sdist_file_roundtrip_partial", "C14_sdist_name_normalises", "C14_sdist_roundtrip_refuted_local_platform",
-    "C14_sdist_roundtrip_refuted_local_ext", "C14_source_never_raises",
+    "C14_wheel_roundtrip", "C14_wheel_file_roundtrip", "C14_sdist_roundtrip", "C14_sdist_canonical_versions",
+    "C14_sdist_file_roundtrip_partial", "C14_sdist_file_refuted_dumb_marker_in_name", "C14_sdist_name_normalises", "C14_source_never_raises",
     "C14_requires_python_agrees", "C14_requires_python_list_agrees", "C14_compat3_refuted",
     "C14_requires_total", "C14_malformed_hides_nothing", "C14_hidden_only_by_false_clause",
-    "C14_page_exact", "C14_page_dom_partial", "C14_page_dom_refuted_trailing_text", "C14_page_dom_refuted_nested_text",
+    "C14_page_exact", "C14_page_dom",
     "C14_hash_is_links_fragment", "C14_findlinks_exact",
     "C14_pin_file_is_link_file", "C14_pin_history_files_are_link_files",
 ]
@@ -716,7 +716,9 @@ def oracle_sequence(scn: Dict[str, Any]) -> Optional[str]:
             if got != want:
                 return (f"step {i + 1}: the pin reports URL {o['printed_url']} but its metadata {got} is not that of the file "
                         f"served there {want} (wheel directory held {obs[i - 1]['wheeldir'] if i else {}})")
-            if o["hash"] and o["hash"].startswith("sha256:") and o["hash"][7:] != hashlib.sha256(served).hexdigest():
+            import re
+            frag = urllib.parse.urldefrag(o["printed_url"])[1]
+            if re.fullmatch(r"sha256=[0-9a-f]{64}", frag) and o["hash"] != "sha256:" + hashlib.sha256(served).hexdigest():
                 return f"step {i + 1}: printed hash {o['hash']} is not the sha256 of the file at {o['printed_url']}"
         return None
     finally:
@@ -1101,7 +1103,7 @@ def name_part_looks_like_version(name: str) -> bool:
 
 
 def oracle_sdist(name: str, ver: str, ext: str) -> Optional[str]:
-    """only called with canonical versions without local part, names without extension substrings"""
+    """canonical versions (local labels included) and dashed/dotted names"""
     m = imp()
     from packaging.version import Version
     fn = f"{name}-{ver}{ext}"
@@ -1155,7 +1157,7 @@ def gen_indep_form(rng, triple) -> str:
 
 
 class _Dom:
-    """independent reading of a page: anchors with their own href and text (text directly inside <a>...</a>)"""
+    """independent reading of a page: anchors with their own href and the text nodes inside <a>...</a> (any depth)"""
 
     def __init__(self, html: str) -> None:
         from html.parser import HTMLParser
@@ -1184,10 +1186,10 @@ class _Dom:
             def handle_data(s, data):
                 if s.cur is None:
                     stray.append(data)
-                elif s.depth > 0:
-                    nested.append(data)
                 else:
-                    s.cur["text"].append(data)
+                    if s.depth > 0:
+                        nested.append(data)
+                    s.cur["text"].append(data)      # text at any depth belongs to the anchor element
         Pz().feed(html)
         self.anchors, self.stray, self.nested = anchors, stray, nested
 
@@ -1232,9 +1234,8 @@ def oracle_page(html: str, triple) -> Optional[str]:
         return f"links are relative to {obs['urls']}, the page was served from {url}"
     dom = _Dom(html)
     want_max, want_min = [], []
-    for a in dom.anchors:
+    for a, text in [(a_, t_) for a_ in dom.anchors for t_ in a_["text"]]:     # each text node is read on its own
         hrefs = [v for k, v in a["attrs"] if k == "href"]
-        text = "".join(a["text"])
         if not hrefs or not text.lower().endswith(SUPPORTED):
             continue
         rp = [v for k, v in a["attrs"] if k in ("data-requires-python", "metadata-requires-python")]
@@ -1284,7 +1285,13 @@ def gen_simple_page(rng, triple) -> str:
             rp = ' ' + rng.choice(["data-requires-python", "metadata-requires-python"]) + '="' + ",".join(forms).replace("<", "&lt;").replace(">", "&gt;") + '"'
         elif r < 0.6:
             rp = ' ' + rng.choice(["data-requires-python", "metadata-requires-python"]) + '="' + rng.choice(["garbage", "&gt;=3.x", "=&gt;3", "&gt;&gt;3"]) + '"'
-        out.append(f'<a href="{href}"{rp}>{fn}</a><br/>\n')
+        r = rng.random()
+        if r < 0.1:      # text nested in a child element still belongs to its anchor
+            out.append(f'<a href="{href}"{rp}><span>{fn}</span></a><br/>\n')
+        elif r < 0.2:    # text after </a> is not a link
+            out.append(f'<a href="{href}"{rp}>{fn}</a> stray_pkg-9.9.tar.gz<br/>\n')
+        else:
+            out.append(f'<a href="{href}"{rp}>{fn}</a><br/>\n')
     out.append("</body></html>")
     return "".join(out)
 
@@ -1333,7 +1340,7 @@ def run_oracles(ctx: Ctx, n: int) -> Optional[Dict[str, Any]]:
             if why:
                 return {"kind": "wheel", "input": args, "why": why}
         elif r < 0.5:
-            ver = str(Version(enc440.gen_version(rng, allow_local=False)))
+            ver = str(Version(enc440.gen_version(rng, allow_local=True))) if rng.random() < 0.85 else rng.choice(["1.0+abc.linux", "1.0+a.zip", "2.1+windows.1", "1.0+x.tgz.1", "1!1.0+macos"])
             args = [rng.choice(["foo", "foo-bar", "zope.interface", "my_pkg", "backports-thing", "pytest-ui", "a-b-c-d", "linux-tools"]), ver,
                     rng.choice([".tar.gz", ".zip", ".tgz", ".tar.bz2"])]
             why = oracle_sdist(*args)
@@ -1407,11 +1414,9 @@ def search(ctx: Ctx) -> Optional[Dict[str, Any]]:
                     if why:
                         return {"kind": "wheel", "input": args, "why": why}
             elif mm["where"] == "page":
-                dom = _Dom(c["html"])
-                if not dom.nested and all(not s.strip() for s in dom.stray):
-                    why = oracle_page(c["html"], tuple(c["interp"]))
-                    if why:
-                        return {"kind": "page", "input": [c["interp"], c["html"]], "why": why}
+                why = oracle_page(c["html"], tuple(c["interp"]))     # any markup: text belongs to the anchor element it is in
+                if why:
+                    return {"kind": "page", "input": [c["interp"], c["html"]], "why": why}
         except Exception:
             continue
     # histories that share a wheel directory are cheap to try and rarely reached by the mixed stream below
@@ -1470,7 +1475,8 @@ LEVEL_TEXT = ("Theorems over Gallina transcriptions of filename_to_candidate / _
               "well-formed components, agreement of the requires-python gate with PEP 440 containment for every interpreter version "
               "on the component-independent forms, fail-open on malformed declarations, exactness of the offered list over all event "
               "streams, hash = link fragment; tied to /repo by AST skeletons + generated constants (T1) and differential execution (T2).")
-LEVEL_NOTE = ("Version-string parsing is an oracle (packaging) on both sides; html.parser tokenisation, urljoin and sha256 are trusted; "
-              "the sdist round trip is partial (local versions with platform-like or extension-like segments refuted) and the DOM-level "
-              "page statement is partial (text after </a> and text nested in child elements refuted).")
+LEVEL_NOTE = ("Version-string parsing is an oracle (packaging) on both sides; html.parser tokenisation, urljoin and sha256 are trusted "
+              "(sha256 collision free; an index advertises only true digests); after the two repairs (anchor scope, local version labels) the "
+              "sdist round trip and the DOM-level page statement are proved at full strength; through filename_to_candidate the sdist statement "
+              "stays partial (the dumb-binary filter looks at the whole file name: refuted witness, known finding).")
 TECHNIQUE = "Rocq proof over Gallina model (string-function lemmas, lexicographic order on release keys, fold invariants) + extraction-based differential correspondence with a parse_version oracle"
